@@ -2,87 +2,6 @@
 `register/quant.rs`: measure_mask, measure, reset_by_mask, get_vreg_by.
 (split out of GenRegs3.lean so that an equality that no longer holds blocks only the properties that rely on it)
 -/
-import Qvnt.Lemmas.GenCreg
-import Qvnt.Lemmas.GenQProb
-import Qvnt.Lemmas.GenOps
-import Qvnt.Lemmas.GenVirtl
-
-set_option linter.unusedSectionVars false
-
-namespace Qvnt.Gen2
-open Qvnt Qvnt.Gen
-
-variable {R : Type}
-
-section arith
-variable [Add R] [Sub R] [Mul R] [Div R] [Neg R] [Zero R] [One R] [Consts R]
-  [LE R] [DecidableLE R] [LT R] [DecidableLT R] [HasSqrt R] [RegConsts R]
-
-/-- `measure_mask` on the stream of drawn basis indices: nothing is drawn for an empty effective mask,
-otherwise the head of the stream is the drawn index (an exhausted stream is `none`) -/
-theorem quant_measure_mask_eq (r : QReg R) (mask : Nat) (ds : List Nat) :
-    quant_measure_mask (ofModel r) mask ds =
-      if mask &&& r.qMask = 0 then some (cregOfModel (CReg.new r.qNum), ofModel r, ds)
-      else match ds with
-        | [] => none
-        | d :: rest => some (cregOfModel (r.measureMask mask d).2, ofModel (r.measureMask mask d).1, rest) := by
-  unfold quant_measure_mask QReg.measureMask
-  by_cases h : mask &&& r.qMask = 0
-  · have h' : (mask &&& (ofModel r).q_mask == 0) = true := by simpa [ofModel] using h
-    simp only [h', ↓reduceIte, h]
-    rw [creg_eq_of_toModel _ _ (creg_new_eq _)]
-    rfl
-  · have h' : (mask &&& (ofModel r).q_mask == 0) = false := by simpa [ofModel] using h
-    simp only [h', Bool.false_eq_true, ↓reduceIte, h]
-    cases ds with
-    | nil => rfl
-    | cons d rest =>
-      simp only [quant_collapse_mask_eq, quant_rescale_eq]
-      rw [creg_eq_of_toModel _ _ (creg_with_state_eq _ _)]
-      simp [ofModel, QReg.rescale, QReg.collapseMask]
-      split <;> rfl
-
-theorem quant_measure_eq (r : QReg R) (ds : List Nat) :
-    quant_measure (ofModel r) ds = quant_measure_mask (ofModel r) r.qMask ds := by
-  unfold quant_measure
-  cases h : quant_measure_mask (ofModel r) (ofModel r).q_mask ds with
-  | none => simp [ofModel] at h ⊢; simp [h]
-  | some v => obtain ⟨c, q, d⟩ := v; simp [ofModel] at h ⊢; simp [h]
-
-end arith
-
-section apply
-variable [CommRing R] [Consts R] [Div R] [LE R] [DecidableLE R] [LT R] [DecidableLT R] [HasSqrt R] [RegConsts R]
-
-/-- `reset_by_mask` on the stream of drawn basis indices -/
-theorem quant_reset_by_mask_eq (r : QReg R) (mask : Nat) (ds : List Nat) :
-    quant_reset_by_mask (ofModel r) mask ds =
-      if mask &&& r.qMask = r.qMask then some (ofModel (r.resetByMask mask 0), ds)
-      else if mask &&& r.qMask = 0 then some (ofModel (r.resetByMask mask 0), ds)
-      else match ds with
-        | [] => none
-        | d :: rest => some (ofModel (r.resetByMask mask d), rest) := by
-  unfold quant_reset_by_mask
-  by_cases h : mask &&& r.qMask = r.qMask
-  · have h' : (mask &&& (ofModel r).q_mask == (ofModel r).q_mask) = true := by simpa [ofModel] using h
-    simp only [h', h, ↓reduceIte, quant_reset_eq, QReg.resetByMask]
-  · have h' : (mask &&& (ofModel r).q_mask == (ofModel r).q_mask) = false := by simpa [ofModel] using h
-    simp only [h', h, Bool.false_eq_true, ↓reduceIte, quant_measure_mask_eq]
-    by_cases h0 : mask &&& r.qMask = 0
-    · simp only [h0, ↓reduceIte, Option.bind_some]
-      have hne : ¬ (0 = r.qMask) := fun e => h (by rw [h0]; exact e)
-      simp [QReg.resetByMask, QReg.measureMask, h0, cregOfModel, CReg.new, CReg.withState, creg_get, hne]
-    · simp only [h0, ↓reduceIte]
-      cases ds with
-      | nil => rfl
-      | cons d rest =>
-        simp only [Option.bind_some, QReg.resetByMask, h, ↓reduceIte]
-        have hv : creg_get (cregOfModel (r.measureMask mask d).2) = (r.measureMask mask d).2.value := rfl
-        simp only [hv]
-        by_cases hz : (r.measureMask mask d).2.value = 0
-        · simp [hz]
-        · simp [hz, quant_apply_eq _ _ (x_ctrl _)]
-
-
-end apply
-end Qvnt.Gen2
+import Qvnt.Lemmas.GenMeas.quant_measure_mask_eq
+import Qvnt.Lemmas.GenMeas.quant_measure_eq
+import Qvnt.Lemmas.GenMeas.quant_reset_by_mask_eq
